@@ -17,6 +17,13 @@ type symReg struct {
 	typ int
 }
 
+type symStateTable struct{ st *generic.GenericSymbolState }
+
+func (t symStateTable) Add(value string, tokenType int) { t.st.Add(value, tokenType) }
+func (t symStateTable) NextToken(scanner rio.IScanner) *tokenizers.Token {
+	return t.st.NextToken(scanner, nil)
+}
+
 func runSymCase(c *Ctx, regs []symReg, input []rune, rereads int) {
 	var sb strings.Builder
 	sb.WriteString("sym")
@@ -28,7 +35,14 @@ func runSymCase(c *Ctx, regs []symReg, input []rune, rereads int) {
 	op := sb.String()
 	var oracle string
 	impl := safeCall(func() string {
-		root := generic.NewSymbolRootNode()
+		// the table is filled and read through the symbol STATE (the public way) or directly through its root node
+		var root interface {
+			Add(value string, tokenType int)
+			NextToken(scanner rio.IScanner) *tokenizers.Token
+		} = generic.NewSymbolRootNode()
+		if (len(input)+len(regs))%2 == 1 {
+			root = symStateTable{generic.NewGenericSymbolState()}
+		}
 		for i, r := range regs {
 			root.Add(string(r.sym), r.typ)
 			if i < len(regs)-1 {
